@@ -419,6 +419,26 @@ func (ex *Exec) initIntrinsics() {
 		ex.onceDone[key] = true
 		return ex.call(fr, a[1], nil, nil)
 	}
+	// sync/atomic function forms over the engine heap (single-threaded execution: plain load/store)
+	in["sync/atomic.StorePointer"] = func(ex *Exec, fr *Frame, a []Value) Value { ex.store(a[0].(PtrV), a[1]); return nil }
+	in["sync/atomic.LoadPointer"] = func(ex *Exec, fr *Frame, a []Value) Value { return ex.load(a[0].(PtrV)) }
+	in["sync/atomic.CompareAndSwapPointer"] = func(ex *Exec, fr *Frame, a []Value) Value {
+		cur := ex.load(a[0].(PtrV)).(PtrV)
+		if ptrEq(cur, a[1].(PtrV)) {
+			ex.store(a[0].(PtrV), a[2])
+			return tf.Bool(true)
+		}
+		return tf.Bool(false)
+	}
+	for _, n := range []string{"Int32", "Int64", "Uint32", "Uint64"} {
+		in["sync/atomic.Load"+n] = func(ex *Exec, fr *Frame, a []Value) Value { return ex.load(a[0].(PtrV)) }
+		in["sync/atomic.Store"+n] = func(ex *Exec, fr *Frame, a []Value) Value { ex.store(a[0].(PtrV), a[1]); return nil }
+		in["sync/atomic.Add"+n] = func(ex *Exec, fr *Frame, a []Value) Value {
+			v := tf.BV("bvadd", ex.load(a[0].(PtrV)).(*Term), a[1].(*Term))
+			ex.store(a[0].(PtrV), v)
+			return v
+		}
+	}
 	in["sort.Slice"] = func(ex *Exec, fr *Frame, a []Value) Value { ex.sortSlice(fr, a[0], a[1]); return nil }
 	in["sort.SliceStable"] = in["sort.Slice"]
 	in["sort.Strings"] = func(ex *Exec, fr *Frame, a []Value) Value {
